@@ -8,23 +8,26 @@ VC that is `unsat` under it is valid for the machine arithmetic.
 Facts recorded for r = fl(e):
   (sign)      e >= 0 => r >= 0 ,  e <= 0 => r <= 0
   (abs)       |e| <= 2^33  =>  |r - e| <= 1e-6          (2^-53 * 2^33 < 1e-6)
-  (rel)       e >= 0 => e*(1-2^-52) <= r <= e*(1+2^-52)   (and mirrored; only when
-              requested, the tiny coefficient slows the simplex down)
+  (rel)       e >= 0 => e*(1-2^-52) - 2^-1074 <= r <= e*(1+2^-52) + 2^-1074   (always; the
+              additive term covers results in the subnormal range), and the pure
+              relative form  e*(1-2^-52) <= r <= e*(1+2^-52)  when e >= 2^-1021
+              (mirrored for e <= 0).  Specification-side operations on token counts
+              (similarity quotients in [2^-32, 1], square roots in [1, 2^16]) use the
+              pure form unconditionally: their operands cannot be subnormal.
   (landmark)  for every integer-valued term k, |k| <= 2^53, present in the VC:
               e <= k => r <= k   and   e >= k => r >= k
               (rounding is monotone and integers below 2^53 are representable)
 Products and quotients of two symbolic terms use the uninterpreted function
 `rmul`; its properties enter only through explicitly instantiated lemmas
-(lemmas.py), each proved separately over the reals.  This keeps the main VC
-linear.  `true_products(f)` substitutes real multiplication back, used to obtain
-meaningful counter-models.
+(lemmas.py), each proved separately over the reals by z3's nlsat.  This keeps the
+main VC linear.  `true_products(f)` substitutes real multiplication back.
 
 round(x, 4): CPython prints x correctly rounded to 4 decimals and parses the
 string back, so the result is fl(R / 10^4) for the integer R nearest to
 10^4 * x (ties: to even on the exact binary value; the model allows either).
-ceil, floor, int(), comparisons int<->float: exact.
-Overflow: each operation emits the safety obligation |e| < 2^1023 (stated with
-the bound available in the VC: |e| <= BIG).
+ceil, floor, int(), comparisons int<->float: exact.  int -> float conversion is
+exact up to 2^53 and correctly rounded above.
+Overflow: each operation emits the safety obligation |e| < 2^1023.
 """
 from fractions import Fraction
 import z3
@@ -32,14 +35,14 @@ from .values import fresh_name
 
 R = z3.RealSort()
 rmul = z3.Function('rmul', R, R, R)
-rsqrt = z3.Function('rsqrt', R, R)          # exact real square root (>= 0)
 
 DELTA = z3.RealVal('1/1000000')
 B33 = z3.RealVal(2 ** 33)
 B53 = z3.RealVal(2 ** 53)
 OVF = z3.RealVal(2 ** 1023)
 EPS2 = z3.RealVal(Fraction(1, 2 ** 52))
-
+ETA = z3.RealVal(Fraction(1, 2 ** 1074))
+TINY = z3.RealVal(Fraction(1, 2 ** 1021))
 
 _round_ufs = {}
 
@@ -55,32 +58,54 @@ def is_num(t):
     return z3.is_rational_value(t) or z3.is_int_value(t) or z3.is_algebraic_value(t)
 
 
+imulf = z3.Function('imul', z3.IntSort(), z3.IntSort(), z3.IntSort())
+
+
+def int_mul(a, b):
+    """Product of two symbolic ints as an (uninterpreted, deterministic) term; numerals stay linear."""
+    sa, sb = z3.simplify(a), z3.simplify(b)
+    if z3.is_int_value(sa) or z3.is_int_value(sb):
+        return a * b
+    if sa.get_id() > sb.get_id():
+        sa, sb = sb, sa
+    return imulf(sa, sb)
+
+
 def exact_mul(a, b):
     a = z3.simplify(a) if not is_num(a) else a
     b = z3.simplify(b) if not is_num(b) else b
     if is_num(a) or is_num(b):
         return a * b
-    # canonical argument order: rmul is commutative by construction
-    if a.get_id() > b.get_id():
-        a, b = b, a
     return rmul(a, b)
 
 
+class Op(object):
+    __slots__ = ('r', 'e', 'tag', 'args')
+
+    def __init__(self, r, e, tag, args):
+        self.r = r
+        self.e = e
+        self.tag = tag
+        self.args = args
+
+
 class FPLog(object):
-    """Per-path record of float operations, used to emit landmark facts."""
+    """Per-path record of float operations."""
 
     def __init__(self):
-        self.ops = []          # (r, e)  result / exact
-        self.ints = []         # integer-valued z3 Int terms usable as landmarks
+        self.ops = []          # Op records
+        self.ints = [z3.IntVal(0), z3.IntVal(1), z3.IntVal(2)]   # integer-valued landmark terms
         self.facts = []        # definitional facts (assumed)
-        self.rel = False
+        self.alias = {}        # id of an i2f result -> ToReal(n)
+        self.assume_normal = False
 
     def copy(self):
         c = FPLog()
         c.ops = list(self.ops)
         c.ints = list(self.ints)
         c.facts = list(self.facts)
-        c.rel = self.rel
+        c.alias = dict(self.alias)
+        c.assume_normal = self.assume_normal
         return c
 
     def landmark(self, k):
@@ -89,44 +114,83 @@ class FPLog(object):
                 return
         self.ints.append(k)
 
-    def rounded(self, e, tag='fl'):
+    def canon(self, x):
+        return self.alias.get(x.get_id(), x)
+
+    def find(self, tag, *args, **kw):
+        """Result term of the recorded operation `tag` on the given operands (operands are
+        compared structurally, modulo int->float conversion, unordered for mul/add).
+        Returns None if the code performs no such operation."""
+        want = [z3.simplify(self.canon(a)) for a in args]
+        hits = []
+        for op in self.ops:
+            if op.tag != tag or len(op.args) != len(want):
+                continue
+            have = [z3.simplify(self.canon(a)) for a in op.args]
+            if all(h.eq(w) for h, w in zip(have, want)) or \
+                    (tag in ('mul', 'add') and len(want) == 2 and have[0].eq(want[1]) and have[1].eq(want[0])):
+                hits.append(op)
+        if not hits:
+            return None
+        return hits[kw.get('nth', 0)]
+
+    def rounded(self, e, tag='fl', args=()):
         """fresh r = fl(e)."""
-        r = z3.Real(fresh_name(tag))
-        self.ops.append((r, e))
-        self.last_exact = e
+        r = z3.Real(fresh_name('f' + tag))
+        self.ops.append(Op(r, e, tag, list(args)))
         self.facts += [z3.Implies(e >= 0, r >= 0), z3.Implies(e <= 0, r <= 0),
                        z3.Implies(z3.And(e <= B33, e >= -B33),
                                   z3.And(r - e <= DELTA, e - r <= DELTA)),
-                       # monotone at the magnitude thresholds themselves
-                       z3.Implies(e >= B33, r >= B33), z3.Implies(e <= -B33, r <= -B33)]
-        if self.rel:
-            self.facts += [z3.Implies(e >= 0, z3.And(r <= e * (1 + EPS2), r >= e * (1 - EPS2))),
-                           z3.Implies(e <= 0, z3.And(r >= e * (1 + EPS2), r <= e * (1 - EPS2)))]
+                       z3.Implies(e >= B33, r >= B33), z3.Implies(e <= -B33, r <= -B33),
+                       # always: relative error 2^-52 plus half the smallest subnormal
+                       z3.Implies(e >= 0, z3.And(r <= e * (1 + EPS2) + ETA, r >= e * (1 - EPS2) - ETA)),
+                       z3.Implies(e <= 0, z3.And(r >= e * (1 + EPS2) - ETA, r <= e * (1 - EPS2) + ETA))]
+        if self.assume_normal:
+            # specification-side operations on quantities known to be far from the subnormal range
+            self.facts += [z3.Implies(e >= 0, z3.And(r <= e * (1 + EPS2), r >= e * (1 - EPS2)))]
+        else:
+            self.facts += [z3.Implies(e >= TINY, z3.And(r <= e * (1 + EPS2), r >= e * (1 - EPS2))),
+                           z3.Implies(e <= -TINY, z3.And(r >= e * (1 + EPS2), r <= e * (1 - EPS2)))]
         return r
+
+    def exact(self, e, tag, args):
+        """An operation whose result is exact: recorded (so that contracts can find it)."""
+        self.ops.append(Op(e, e, tag, list(args)))
+        return e
 
     def landmark_facts(self):
         out = []
-        for (r, e) in self.ops:
+        for op in self.ops:
+            if op.r is op.e:
+                continue
             for k in self.ints:
                 kr = z3.ToReal(k)
                 ok = z3.And(kr <= B53, kr >= -B53)
-                out.append(z3.Implies(z3.And(ok, e <= kr), r <= kr))
-                out.append(z3.Implies(z3.And(ok, e >= kr), r >= kr))
+                out.append(z3.Implies(z3.And(ok, op.e <= kr), op.r <= kr))
+                out.append(z3.Implies(z3.And(ok, op.e >= kr), op.r >= kr))
         return out
 
     # ---- operations; each returns (result, [safety obligations]) -------------
     def i2f(self, n):
-        # exact for |n| <= 2^53
         self.landmark(n)
-        return z3.ToReal(n), [('int-to-float-exact', z3.And(z3.ToReal(n) <= B53, z3.ToReal(n) >= -B53))]
+        nr = z3.ToReal(n)
+        s = z3.simplify(nr)
+        if is_num(s):
+            v = abs(Fraction(s.numerator_as_long(), s.denominator_as_long()))
+            if v <= 2 ** 53:
+                return s, []
+        r = self.rounded(nr, 'i2f', [nr])
+        self.alias[r.get_id()] = nr
+        self.facts.append(z3.Implies(z3.And(nr <= B53, nr >= -B53), r == nr))
+        return r, [('float-no-overflow', z3.And(nr < OVF, nr > -OVF))]
 
     def add(self, a, b):
         e = a + b
-        return self.rounded(e, 'fadd'), [('float-no-overflow', z3.And(e < OVF, e > -OVF))]
+        return self.rounded(e, 'add', [a, b]), [('float-no-overflow', z3.And(e < OVF, e > -OVF))]
 
     def sub(self, a, b):
         e = a - b
-        return self.rounded(e, 'fsub'), [('float-no-overflow', z3.And(e < OVF, e > -OVF))]
+        return self.rounded(e, 'sub', [a, b]), [('float-no-overflow', z3.And(e < OVF, e > -OVF))]
 
     def mul(self, a, b):
         e = exact_mul(a, b)
@@ -136,14 +200,14 @@ class FPLog(object):
                 k = abs(xs.numerator_as_long())
                 if k and (k & (k - 1)) == 0:
                     # multiplication by a power of two is exact
-                    self.last_exact = e
-                    return e, [('float-no-overflow', z3.And(e < OVF, e > -OVF))]
-        return self.rounded(e, 'fmul'), [('float-no-overflow', z3.And(e < OVF, e > -OVF))]
+                    return self.exact(e, 'mul', [a, b]), [('float-no-overflow', z3.And(e < OVF, e > -OVF))]
+        return self.rounded(e, 'mul', [a, b]), [('float-no-overflow', z3.And(e < OVF, e > -OVF))]
 
     def div(self, a, b):
-        if is_num(b) and not z3.simplify(b == 0).eq(z3.BoolVal(True)):
+        bs = z3.simplify(b)
+        if is_num(bs) and not (bs.numerator_as_long() == 0):
             e = a / b
-            return self.rounded(e, 'fdiv'), [('float-no-overflow', z3.And(e < OVF, e > -OVF))]
+            return self.rounded(e, 'div', [a, b]), [('float-no-overflow', z3.And(e < OVF, e > -OVF))]
         q = z3.Real(fresh_name('quot'))
         # q is the exact quotient: q * b = a  (only meaningful when b != 0)
         self.facts.append(z3.Implies(b != 0, exact_mul(q, b) == a))
@@ -151,13 +215,14 @@ class FPLog(object):
         self.facts.append(z3.Implies(z3.And(b > 0, a <= 0), q <= 0))
         self.facts.append(z3.Implies(z3.And(b < 0, a >= 0), q <= 0))
         self.facts.append(z3.Implies(z3.And(b < 0, a <= 0), q >= 0))
-        return self.rounded(q, 'fdiv'), [('division-by-zero', b != 0),
-                                         ('float-no-overflow', z3.And(q < OVF, q > -OVF))]
+        self.facts.append(z3.Implies(z3.And(b > 0, a > 0), q > 0))
+        return self.rounded(q, 'div', [a, b]), [('division-by-zero', b != 0),
+                                                ('float-no-overflow', z3.And(q < OVF, q > -OVF))]
 
     def sqrt(self, a):
         s = z3.Real(fresh_name('sqrt'))
-        self.facts += [s >= 0, z3.Implies(a >= 0, exact_mul(s, s) == a), s == rsqrt(a)]
-        return self.rounded(s, 'fsqrt'), [('sqrt-domain', a >= 0)]
+        self.facts += [s >= 0, z3.Implies(a >= 0, exact_mul(s, s) == a), z3.Implies(a > 0, s > 0)]
+        return self.rounded(s, 'sqrt', [a]), [('sqrt-domain', a >= 0)]
 
     def round_nd(self, x, nd):
         p = z3.RealVal(10 ** nd)
@@ -165,10 +230,9 @@ class FPLog(object):
         self.facts += [p * x - z3.ToReal(Rn) <= z3.RealVal('1/2'),
                        z3.ToReal(Rn) - p * x <= z3.RealVal('1/2')]
         e = z3.ToReal(Rn) / p
-        r = self.rounded(e, 'fround')
+        r = self.rounded(e, 'round%d' % nd, [x])
         self.facts.append(r == fl_round(nd)(x))
-        self.last_R = Rn
-        return r, [('float-no-overflow', z3.And(x < OVF, x > -OVF))]
+        return r, []
 
     def round0(self, x):
         """round(x) with one argument -> int, nearest, ties to even."""
@@ -176,26 +240,27 @@ class FPLog(object):
         self.facts += [x - z3.ToReal(n) <= z3.RealVal('1/2'),
                        z3.ToReal(n) - x <= z3.RealVal('1/2')]
         self.landmark(n)
-        return n, [('float-no-overflow', z3.And(x < OVF, x > -OVF))]
+        self.ops.append(Op(z3.ToReal(n), z3.ToReal(n), 'round0', [x]))
+        return n, []
 
     def ceil(self, x):
         c = z3.Int(fresh_name('ceil'))
         self.facts += [z3.ToReal(c) >= x, z3.ToReal(c) - 1 < x]
         self.landmark(c)
-        return c, [('float-no-overflow', z3.And(x < OVF, x > -OVF))]
+        return c, []
 
     def floor(self, x):
         c = z3.Int(fresh_name('floor'))
         self.facts += [z3.ToReal(c) <= x, z3.ToReal(c) + 1 > x]
         self.landmark(c)
-        return c, [('float-no-overflow', z3.And(x < OVF, x > -OVF))]
+        return c, []
 
     def trunc(self, x):
         c = z3.Int(fresh_name('trunc'))
         self.facts += [z3.Implies(x >= 0, z3.And(z3.ToReal(c) <= x, z3.ToReal(c) + 1 > x)),
                        z3.Implies(x < 0, z3.And(z3.ToReal(c) >= x, z3.ToReal(c) - 1 < x))]
         self.landmark(c)
-        return c, [('float-no-overflow', z3.And(x < OVF, x > -OVF))]
+        return c, []
 
 
 def const(x):
@@ -203,8 +268,49 @@ def const(x):
     return z3.RealVal(Fraction(float(x)))
 
 
+def rmul_apps(fs):
+    """All rmul applications occurring in the formulas."""
+    seen = set()
+    out = []
+    stack = list(fs)
+    while stack:
+        t = stack.pop()
+        k = t.get_id()
+        if k in seen:
+            continue
+        seen.add(k)
+        if z3.is_app(t):
+            if t.decl().eq(rmul):
+                out.append(t)
+            stack.extend(t.children())
+        elif z3.is_quantifier(t):
+            stack.append(t.body())
+    return out
+
+
+def commutativity_instances(fs):
+    out = []
+    for t in rmul_apps(fs):
+        a, b = t.arg(0), t.arg(1)
+        if not a.eq(b) and z3.is_app(a) and z3.is_app(b) and not _has_var(a) and not _has_var(b):
+            out.append(rmul(a, b) == rmul(b, a))
+    return out
+
+
+def _has_var(t):
+    stack = [t]
+    while stack:
+        x = stack.pop()
+        if z3.is_var(x):
+            return True
+        if z3.is_app(x):
+            stack.extend(x.children())
+    return False
+
+
 def true_products(f):
-    """Replace rmul(a,b) by a*b in formula f (nonlinear; for counter-models)."""
+    """Replace rmul(a,b) by a*b in formula f (nonlinear; for counter-models and as a
+    second attempt when the linearised VC is satisfiable for lack of a lemma instance)."""
     cache = {}
 
     def go(t):
@@ -219,8 +325,6 @@ def true_products(f):
                 r = t.decl()(*ch)
             else:
                 r = t
-        elif z3.is_quantifier(t):
-            r = t
         else:
             r = t
         cache[k] = r
